@@ -52,7 +52,7 @@ type ictx struct {
 var leanReserved = map[string]bool{"end": true, "from": true, "at": true, "show": true, "then": true, "fun": true, "open": true, "by": true, "do": true, "in": true,
 	"have": true, "let": true, "match": true, "with": true, "if": true, "else": true, "def": true, "theorem": true, "where": true, "namespace": true, "section": true,
 	"instance": true, "structure": true, "class": true, "Type": true, "Prop": true, "Sort": true, "this": true, "W": true, "H": true, "rest_": true, "ret_": true,
-	"some": true, "none": true, "len": true, "copy": true, "index": true, "deref": true, "makeBytes": true, "bytesOfString": true, "numCPU": true, "fuel_": true}
+	"some": true, "none": true, "len": true, "copy": true, "index": true, "deref": true, "makeBytes": true, "bytesOfString": true, "numCPU": true, "fuel_": true, "shl64": true, "uintOfInt": true}
 
 func lname(n string) string {
 	if leanReserved[n] {
@@ -159,6 +159,9 @@ func (f *impFn) expr(e ast.Expr, want *ity, c *ictx) (string, *ity) {
 		return f.expr(v.X, want, c)
 	case *ast.BasicLit:
 		if v.Kind == token.INT {
+			if want != nil && want.k == "uint64" { // untyped constant in a uint64 context
+				return v.Value, tyU64
+			}
 			return v.Value, tyInt
 		}
 		p.die(e, "literal outside the subset")
@@ -251,7 +254,7 @@ func (f *impFn) expr(e ast.Expr, want *ity, c *ictx) (string, *ity) {
 		}
 		p.die(e, "unary operator %s", v.Op)
 	case *ast.BinaryExpr:
-		return f.binary(v, c)
+		return f.binary(v, want, c)
 	case *ast.CompositeLit:
 		t := p.goType(v.Type)
 		if t.k != "struct" {
@@ -290,7 +293,7 @@ func (f *impFn) expr(e ast.Expr, want *ity, c *ictx) (string, *ity) {
 	return "", nil
 }
 
-func (f *impFn) binary(v *ast.BinaryExpr, c *ictx) (string, *ity) {
+func (f *impFn) binary(v *ast.BinaryExpr, want *ity, c *ictx) (string, *ity) {
 	p := f.p
 	switch v.Op {
 	case token.LOR, token.LAND:
@@ -319,7 +322,7 @@ func (f *impFn) binary(v *ast.BinaryExpr, c *ictx) (string, *ity) {
 		if id, ok := v.Y.(*ast.Ident); ok && id.Name == "nil" {
 			xs, xt := f.expr(v.X, nil, c)
 			switch xt.k {
-			case "ptr":
+			case "ptr", "nslice":
 				if v.Op == token.EQL {
 					return parenImp(xs) + ".isNone", tyBool
 				}
@@ -332,9 +335,8 @@ func (f *impFn) binary(v *ast.BinaryExpr, c *ictx) (string, *ity) {
 			}
 			p.die(v, "comparison of %v with nil (slices / maps: not in the by-value subset)", xt)
 		}
-		xs, xt := f.expr(v.X, nil, c)
-		ys, yt := f.expr(v.Y, xt, c)
-		if !xt.eq(yt) || !(xt.k == "int" || xt.k == "bool" || xt.k == "string" || xt.k == "error" || xt.k == "byte") {
+		xs, xt, ys, yt := f.operands(v, nil, c)
+		if !xt.eq(yt) || !(xt.k == "int" || xt.k == "uint64" || xt.k == "bool" || xt.k == "string" || xt.k == "error" || xt.k == "byte") {
 			p.die(v, "comparison of %v and %v", xt, yt)
 		}
 		op := "=="
@@ -343,16 +345,36 @@ func (f *impFn) binary(v *ast.BinaryExpr, c *ictx) (string, *ity) {
 		}
 		return parenImp(xs) + " " + op + " " + parenImp(ys), tyBool
 	case token.LSS, token.LEQ, token.GTR, token.GEQ:
-		xs, xt := f.expr(v.X, tyInt, c)
-		ys, yt := f.expr(v.Y, tyInt, c)
-		if xt.k != "int" || yt.k != "int" {
+		xs, xt, ys, yt := f.operands(v, nil, c)
+		if !(xt.k == "int" && yt.k == "int") && !(xt.k == "uint64" && yt.k == "uint64") {
 			p.die(v, "%s on %v, %v", v.Op, xt, yt)
 		}
 		op := map[token.Token]string{token.LSS: "<", token.LEQ: "≤", token.GTR: ">", token.GEQ: "≥"}[v.Op]
 		return "decide (" + xs + " " + op + " " + ys + ")", tyBool
+	case token.SHL:
+		// x << s on uint64 (an untyped constant x takes its type from the context); s must be unsigned
+		xs, xt := f.expr(v.X, want, c)
+		ss, st := f.expr(v.Y, tyU64, c)
+		if xt.k != "uint64" || st.k != "uint64" {
+			p.die(v, "<< on %v, %v (only uint64 << uint)", xt, st)
+		}
+		return "shl64 " + parenImp(xs) + " " + parenImp(ss), tyU64
 	case token.ADD, token.SUB, token.MUL, token.QUO, token.REM:
-		xs, xt := f.expr(v.X, tyInt, c)
-		ys, yt := f.expr(v.Y, tyInt, c)
+		xs, xt, ys, yt := f.operands(v, want, c)
+		if xt.k == "uint64" && yt.k == "uint64" {
+			switch v.Op {
+			case token.ADD:
+				return "(" + xs + " + " + ys + ") % 2^64", tyU64
+			case token.SUB:
+				return "(" + xs + " + 2^64 - " + ys + ") % 2^64", tyU64
+			case token.MUL:
+				return "(" + parenImp(xs) + " * " + parenImp(ys) + ") % 2^64", tyU64
+			case token.QUO: // division by zero panics in Go: not modelled (Lean: 0)
+				return parenImp(xs) + " / " + parenImp(ys), tyU64
+			case token.REM:
+				return parenImp(xs) + " % " + parenImp(ys), tyU64
+			}
+		}
 		if xt.k != "int" || yt.k != "int" {
 			p.die(v, "%s on %v, %v", v.Op, xt, yt)
 		}
@@ -366,6 +388,49 @@ func (f *impFn) binary(v *ast.BinaryExpr, c *ictx) (string, *ity) {
 	}
 	p.die(v, "binary operator %s", v.Op)
 	return "", nil
+}
+
+func untypedConst(e ast.Expr) bool {
+	switch v := e.(type) {
+	case *ast.BasicLit:
+		return true
+	case *ast.ParenExpr:
+		return untypedConst(v.X)
+	case *ast.BinaryExpr:
+		if v.Op == token.SHL {
+			return untypedConst(v.X)
+		}
+		return untypedConst(v.X) && untypedConst(v.Y)
+	}
+	return false
+}
+
+// both operands of a binary operator; an untyped constant operand takes the type of the other one (or of the context)
+func (f *impFn) operands(v *ast.BinaryExpr, want *ity, c *ictx) (string, *ity, string, *ity) {
+	if untypedConst(v.X) && !untypedConst(v.Y) {
+		ys, yt := f.expr(v.Y, want, c)
+		xs, xt := f.expr(v.X, yt, c)
+		return xs, xt, ys, yt
+	}
+	w := want
+	if w == nil || !(w.k == "int" || w.k == "uint64") {
+		w = nil
+	}
+	xs, xt := f.expr(v.X, w, c)
+	ys, yt := f.expr(v.Y, xt, c)
+	return xs, xt, ys, yt
+}
+
+// a slice VALUE: a nil-able slice parameter must be known to be non-nil here
+func (f *impFn) sliceVal(e ast.Expr, want *ity, c *ictx) (string, *ity) {
+	xs, xt := f.expr(e, want, c)
+	if xt.k == "nslice" {
+		if !f.nonNil[exprText(e)] {
+			f.p.die(e, "use of the nil-able slice %s is not guarded by a nil test", exprText(e))
+		}
+		return "(deref " + parenImp(xs) + ")", xt.elem
+	}
+	return xs, xt
 }
 
 // hash method call X.M(args) ?
@@ -407,7 +472,48 @@ func (f *impFn) call(v *ast.CallExpr, want *ity, c *ictx) (string, *ity) {
 		}
 		p.die(v, "hash method %s in expression position", m)
 	}
+	if id, ok := v.Fun.(*ast.Ident); ok && p.absDecl[id.Name] != nil && f.lookup(id.Name) == nil {
+		_, tys, rt := p.absSig(id.Name)
+		if len(tys) != len(v.Args) || v.Ellipsis.IsValid() {
+			p.die(v, "call of the abstract function %s: arity", id.Name)
+		}
+		out := id.Name
+		for i, a := range v.Args {
+			if tys[i].k == "hash" { // the hasher is Reset by the callee before use: its state does not influence the result
+				if _, at := f.expr(a, nil, c); at.k != "hash" {
+					p.die(a, "hash argument expected")
+				}
+				continue
+			}
+			as, at := f.sliceVal(a, tys[i], c)
+			if !at.eq(tys[i]) {
+				p.die(a, "argument %d of %s: %v expected, %v given", i, id.Name, tys[i], at)
+			}
+			out += " " + parenImp(as)
+		}
+		return out, rt
+	}
 	switch exprText(v.Fun) {
+	case "uint", "uint64":
+		if len(v.Args) == 1 && f.lookup(exprText(v.Fun)) == nil {
+			xs, xt := f.expr(v.Args[0], nil, c)
+			switch xt.k {
+			case "int":
+				return "uintOfInt " + parenImp(xs), tyU64
+			case "uint64":
+				return xs, tyU64
+			}
+			p.die(v, "conversion to uint64 of %v", xt)
+		}
+	case "bytes.Equal":
+		if len(v.Args) == 2 {
+			xs, xt := f.sliceVal(v.Args[0], tyBytes, c)
+			ys, yt := f.sliceVal(v.Args[1], tyBytes, c)
+			if xt.eq(tyBytes) && yt.eq(tyBytes) {
+				return parenImp(xs) + " == " + parenImp(ys), tyBool
+			}
+		}
+		p.die(v, "bytes.Equal form")
 	case "runtime.NumCPU":
 		if len(v.Args) == 0 {
 			f.usesNumCPU = true
